@@ -439,6 +439,9 @@ class PythonAction(BaseAction):
         """
         capture_io = self.task.io.capture if self.task else True
 
+        # might raise InvalidTask, must be done before std streams are replaced
+        kwargs = self._prepare_kwargs()
+
         if capture_io:
             # set std stream
             old_stdout = sys.stdout
@@ -465,8 +468,6 @@ class PythonAction(BaseAction):
                 old_stderr = sys.stderr
                 sys.stderr = err
 
-
-        kwargs = self._prepare_kwargs()
 
         # execute action / callable
         try:
